@@ -1,10 +1,12 @@
 import OpcuaModel.Base.Loop
 import OpcuaModel.Model.SendSeqDrv
 import OpcuaModel.Model.SendRenew
+import OpcuaModel.Model.SendFloat
 /-
   Driver for C16.
     delay <lifetime ms>      → <delay of scheduleRenewal in ns>
     window <lifetime ms>     → in | out       (L/2 ≤ delay < L)
+    f64 <lifetime ns>        → int64(float64(x)*0.75) by the IEEE-754 model (exact product, round to nearest even on 53 bits, truncate)
     rk <label> <label> …     → wire of the server re-key LTS, newest first: m|o ':' sym<k>|asym …  | reject
                                labels: readOPN handleAsym respLock respWrite respUnlock installSym sLock<t> sSecure<t> sUnlock<t>
     reset / lts / guard / wire / linked / renewed / state : the sender / renewal LTS (see SendSeqDrv.lean)
@@ -32,6 +34,10 @@ def handle (st : Option St) (toks : List String) : Option St × String :=
   | ["delay", l] =>
     match l.toNat? with
     | some l => (st, toString (renewDelayNs l))
+    | none => (st, "bad-op")
+  | ["f64", x] =>
+    match x.toNat? with
+    | some x => (st, toString (SendFloat.f64mul075 x))
     | none => (st, "bad-op")
   | ["window", l] =>
     match l.toNat? with
